@@ -3,7 +3,6 @@ package main
 import (
 	"fmt"
 	"strings"
-	"sync"
 
 	"verif/internal/fakeredis"
 	"verif/internal/harness"
@@ -56,11 +55,9 @@ type marks struct {
 func isIndex(key []byte) bool { return string(key) == config.CheckpointKeyHashKey }
 
 // findMarks locates the phases in the operation's request log.  newID: the id the new entry
-// is written under; oldKeys: keys of the before-state (writes to any other reserved key are
-// seeding writes of a new namespace).
+// is written under (checkpoint moves); gc: the operation only deletes.
 func findMarks(l *opLog, newID string, gc bool) marks {
 	m := marks{GC: gc}
-	exec := map[int64]bool{}
 	for _, a := range l.Apps {
 		if !a.Write || a.IsErr || len(a.Args) == 0 {
 			continue
@@ -85,7 +82,6 @@ func findMarks(l *opLog, newID string, gc bool) marks {
 				m.FirstDel = a.ReqSeq
 			}
 		}
-		exec[a.ReqSeq] = true
 	}
 	return m
 }
@@ -168,17 +164,16 @@ func prefixStates(l *opLog, m marks) []*prefixState {
 
 // caseCtx carries what a verdict needs for its witness.
 type caseCtx struct {
-	Key     string // replay key
-	Kind    string
-	Rep     int
-	Layout  string
-	Desc    any
-	OldCfg  startCfg
-	NewCfg  startCfg
-	P0      found
-	Extra   map[string]any
-	SrcNew  *fakeredis.Server
-	RunLock *sync.Mutex
+	Key    string // replay key
+	Kind   string
+	Rep    int
+	Layout string
+	Desc   any
+	OldCfg startCfg
+	NewCfg startCfg
+	P0     found
+	Extra  map[string]any
+	SrcNew *fakeredis.Server
 }
 
 // judge compares what the next start found with the before-state's position.
@@ -208,6 +203,21 @@ func judge(p0, f found) (string, string) {
 	return "", "same"
 }
 
+// readsModeStateOutsideDb0: the start read a bisync frontier / latest / journal key on a
+// connection that was not in database 0 (where the tool keeps them).
+func readsModeStateOutsideDb0(reqs []fakeredis.Req) bool {
+	for _, r := range reqs {
+		if r.DB == 0 || len(r.Args) == 0 || (r.Cmd != "HGETALL" && r.Cmd != "ZRANGEBYSCORE") {
+			continue
+		}
+		k := string(r.Args[0])
+		if strings.HasSuffix(k, ":frontier") || strings.HasPrefix(k, "redis-gunyu-bisync:") {
+			return true
+		}
+	}
+	return false
+}
+
 // sweepOp runs the next start (new configuration, uncut) on every distinct prefix state of
 // the operation and reports the clauses.
 func sweepOp(run *harness.Run, cc *caseCtx, l *opLog, m marks) {
@@ -219,6 +229,7 @@ func sweepOp(run *harness.Run, cc *caseCtx, l *opLog, m marks) {
 	for _, ps := range states {
 		t := newTarget(ps.DBs)
 		f := nextStart(cc.SrcNew, t.Addr(), cc.NewCfg)
+		startReqs := t.Requests()
 		t.Close()
 		run.Eval(1)
 		run.Count("distinct_states_resumed", 1)
@@ -233,21 +244,32 @@ func sweepOp(run *harness.Run, cc *caseCtx, l *opLog, m marks) {
 			run.Seen("prefix_classes", cc.Kind+"|"+c)
 		}
 		run.Seen("layout_classes", cc.Layout)
+		if i := strings.LastIndexByte(cc.Layout, '/'); i > 0 {
+			run.Seen("db_layouts", cc.Layout[:i])
+		}
 		run.Seen("outcomes", cc.Kind+"|"+outcome)
 		if clause == "" {
 			continue
 		}
-		if clause == "next-start-refused" && !cc.P0.Has {
+		if clause == "next-start-refused" {
+			// fail-safe refusal (an error instead of a position): counted, not a violation
+			run.Count("next_start_refusals", 1)
+			run.Seen("refusals", cc.Kind+"/next-start: "+lastLine(f.Err))
 			continue
 		}
 		sig := fmt.Sprintf("%s|%s|%s", cc.Kind, clause, cls)
+		if readsModeStateOutsideDb0(startReqs) && clause != "wrong-db" {
+			// minimal context: the start itself looked for the bisync recovery records in the
+			// database its checkpoint scan ended in
+			sig += "|start-reads-mode-state-in-dbK"
+		}
 		what := fmt.Sprintf("%s stopped after request %d of %d (%s; stands for %d prefixes): the next start with the new configuration finds %s; "+
 			"before the operation a start found %s", cc.Kind, ps.N, l.N, cls, ps.Covers, f, cc.P0)
 		w := map[string]any{
 			"rep": cc.Rep, "layout_class": cc.Layout, "initial_state": cc.Desc, "initial_bookkeeping": bookDump(l.S0),
 			"old_config": cc.OldCfg, "new_config": cc.NewCfg, "before": cc.P0.String(), "after": f.String(),
 			"stopped_after_request": ps.N, "operation_requests": reqDump(l.Reqs), "state_at_stop": bookDump(ps.DBs),
-			"operation_error": l.OpErr, "prefix_classes_of_state": strings.Join(classes, ","),
+			"next_start_requests": reqDump(startReqs), "operation_error": l.OpErr, "prefix_classes_of_state": strings.Join(classes, ","),
 			"note": "INFO keyspace → Go map iteration randomises the scan order; the case is repeated (rep) to sample orders, replay re-samples them",
 		}
 		for k, v := range cc.Extra {
